@@ -123,7 +123,14 @@ def random_script(rng, name_no, nops, smaller=False):
                 lines.append("bnew %d %d" % (h, s))
                 hs.append(h)
     used = 0
+    late = [5, 6, 7]
     for i in range(nops):
+        if not smaller and late and rng.random() < 0.06:
+            # one more handle in the middle of the history, opened with an equal / larger / zero size argument: it joins the queue as it is
+            h = late.pop(0)
+            lines.append("bnew %d %d" % (h, rng.choice([cap, cap * 2 + 1, 0, cap + 1])))
+            hs.append(h)
+            lines.append("bsp %d" % h)
         h = rng.choice(hs)
         r = rng.random()
         if r < 0.45:
